@@ -106,6 +106,14 @@ func (its *DatatypeManager) SyncAll() errors.OrdaError {
 	}
 	defer func() {
 		its.sema.Release(1)
+		// a realtime delivery that found the semaphore taken by this call gave up and relies on the holder to look again
+		if its.ctx.Client.SyncType == model.SyncType_REALTIME {
+			for _, data := range its.dataMap {
+				if data.NeedPush() {
+					its.DeliverTransaction(data)
+				}
+			}
+		}
 	}()
 
 	var pushPullPacks []*model.PushPullPack
